@@ -72,6 +72,22 @@ open WinTree (Id Win Req Change Tree)
 
 /-! ## the invariant of the whole state -/
 
+/-- References the library itself holds between two calls or while an entry point runs, which the window tree of this
+    layer does not know about (`Model/LifeTop.lean`: the toplevel instance's references to the terminal and to the root
+    window, the reference an input entry point of the terminal holds while it works).  A parameter of the invariant:
+    no operation of this layer reads or changes it. -/
+structure Ghost where
+  term : Nat := 0
+  win : Nat → Nat := fun _ => 0
+
+/-- Nobody but the application and the windows holds anything. -/
+def Ghost.none : Ghost := {}
+
+@[simp] theorem Ghost.none_term : Ghost.none.term = 0 := rfl
+@[simp] theorem Ghost.none_win (i : Nat) : Ghost.none.win i = 0 := rfl
+
+variable {gh : Ghost}
+
 /-- The pens' counts: the application's references plus the windows holding the pen. -/
 structure PensOk (st : St) : Prop where
   rc : ∀ (k : Nat) (p : Obj), st.pens[k]? = some p →
@@ -88,7 +104,7 @@ def SimpleOk (st : St) : Prop :=
 /-- The state invariant without the account of the application's window references, generalised to the middle of
     `tickit_window_unref`: the windows in `pending` have been freed by the tree cascade but what they own (pen,
     terminal reference) has not been released yet. -/
-structure SInvB (st : St) (pending : List Nat) : Prop where
+structure SInvB (gh : Ghost) (st : St) (pending : List Nat) : Prop where
   tinv : TInv st.tree
   wx_size : st.wx.size = st.tree.wins.size
   /-- every live window holds at least one reference -/
@@ -100,21 +116,21 @@ structure SInvB (st : St) (pending : List Nat) : Prop where
   pens : PensOk st
   /-- the terminal's count is the application's references plus the root window's -/
   term_held : st.term.freed = false → ((∃ r, LiveW st.tree 0 r) ∨ 0 ∈ pending) →
-    st.term.refcount = (st.term.appRefs : Int) + 1
+    st.term.refcount = (st.term.appRefs : Int) + (gh.term : Int) + 1
   term_free : st.term.freed = false → ¬ ((∃ r, LiveW st.tree 0 r) ∨ 0 ∈ pending) →
-    st.term.refcount = (st.term.appRefs : Int) ∧ 1 ≤ st.term.refcount
+    st.term.refcount = (st.term.appRefs : Int) + (gh.term : Int) ∧ 1 ≤ st.term.refcount
   term_dead : st.term.freed = true → ¬ ((∃ r, LiveW st.tree 0 r) ∨ 0 ∈ pending)
   simple : SimpleOk st
 
 /-- The state invariant: `SInvB`, and no live window holds more references than the application has taken (no
     handler is running, so nobody else holds one). -/
-structure SInvG (st : St) (pending : List Nat) : Prop extends SInvB st pending where
-  wref : ∀ (i : Nat) (w : Win), LiveW st.tree i w → w.refcount ≤ ((getX st i).appRefs : Int)
+structure SInvG (gh : Ghost) (st : St) (pending : List Nat) : Prop extends SInvB gh st pending where
+  wref : ∀ (i : Nat) (w : Win), LiveW st.tree i w → w.refcount ≤ ((getX st i).appRefs : Int) + (gh.win i : Int)
 
 /-- The state invariant between two operations. -/
-abbrev SInv (st : St) : Prop := SInvG st []
+abbrev SInv (gh : Ghost) (st : St) : Prop := SInvG gh st []
 
-theorem SInvB.rb_rc {st : St} {pend : List Nat} (inv : SInvB st pend) (k : Nat) (b : RBObj) (hb : st.rbs[k]? = some b)
+theorem SInvB.rb_rc {st : St} {pend : List Nat} (inv : SInvB gh st pend) (k : Nat) (b : RBObj) (hb : st.rbs[k]? = some b)
     (hf : b.freed = false) : 1 ≤ b.refcount := (inv.simple.1 k b hb hf).1
 
 theorem getX_setX (st : St) (i : Nat) (x : WinX) (j : Nat) :
@@ -251,6 +267,7 @@ end Tickit.Life
 
 namespace Tickit.Life
 open WinTree (Id Win Req Change Tree)
+variable {gh : Ghost}
 
 /-! ## changes that leave every window's pen alone -/
 
@@ -280,9 +297,9 @@ theorem getX_pen_of_map {st st' : St} (h : st'.wx.toList.map (·.pen) = st.wx.to
     rw [Array.getElem?_eq_none (Nat.le_of_not_lt hj), Array.getElem?_eq_none (Nat.le_of_not_lt hj')]
 
 /-- A change of the windows' records that leaves every pen (and everything else) alone keeps the invariant. -/
-theorem SInvB.of_wx {st st' : St} {pend : List Nat} (inv : SInvB st pend) (ht : st'.tree = st.tree)
+theorem SInvB.of_wx {st st' : St} {pend : List Nat} (inv : SInvB gh st pend) (ht : st'.tree = st.tree)
     (hp : st'.pens = st.pens) (htm : st'.term = st.term) (hrb : st'.rbs = st.rbs) (hstr : st'.strs = st.strs)
-    (hm : st'.wx.toList.map (·.pen) = st.wx.toList.map (·.pen)) : SInvB st' pend := by
+    (hm : st'.wx.toList.map (·.pen) = st.wx.toList.map (·.pen)) : SInvB gh st' pend := by
   have hh := holders_of_pens_eq hm
   have hg := getX_pen_of_map hm
   have hlen : st'.wx.size = st.wx.size := by
@@ -346,11 +363,12 @@ end Tickit.Life
 
 namespace Tickit.Life
 open WinTree (Id Win Req Change Tree)
+variable {gh : Ghost}
 
 /-! ## releasing what a destroyed window owned -/
 
-theorem releaseWin_ok {st : St} {d : Nat} {rest : List Nat} (inv : SInvB st (d :: rest)) :
-    ∃ st', releaseWin st d = .ok st' ∧ SInvB st' rest ∧ st'.tree = st.tree ∧
+theorem releaseWin_ok {st : St} {d : Nat} {rest : List Nat} (inv : SInvB gh st (d :: rest)) :
+    ∃ st', releaseWin st d = .ok st' ∧ SInvB gh st' rest ∧ st'.tree = st.tree ∧
       ∀ (j : Nat), (getX st' j).appRefs = (getX st j).appRefs := by
   obtain ⟨dw, hdw, hdf⟩ := inv.pend_freed d (by simp)
   have hd : d < st.wx.size := by
@@ -361,7 +379,7 @@ theorem releaseWin_ok {st : St} {d : Nat} {rest : List Nat} (inv : SInvB st (d :
       rw [hdw] at this; cases this
   have hnd := List.nodup_cons.1 inv.pend_nodup
   -- step 1: the bindings go
-  have inv1 : SInvB (setX st d { getX st d with binds := [] }) (d :: rest) :=
+  have inv1 : SInvB gh (setX st d { getX st d with binds := [] }) (d :: rest) :=
     inv.of_wx rfl rfl rfl rfl rfl (setX_map_pen _ rfl)
   have hd1 : d < (setX st d { getX st d with binds := [] }).wx.size := by simpa using hd
   -- step 2: the pen goes
@@ -389,7 +407,7 @@ theorem releaseWin_ok {st : St} {d : Nat} {rest : List Nat} (inv : SInvB st (d :
       show (getX st2 j).appRefs = _
       rw [e, getX_setX_self _ hd]
     · rw [hget_ne j hj]
-  have base : SInvB (setX st2 d { getX st2 d with pen := .null }) rest ∨ d = 0 := by
+  have base : SInvB gh (setX st2 d { getX st2 d with pen := .null }) rest ∨ d = 0 := by
     by_cases hd0 : d = 0
     · exact .inr hd0
     · left
@@ -485,11 +503,12 @@ end Tickit.Life
 
 namespace Tickit.Life
 open WinTree (Id Win Req Change Tree)
+variable {gh : Ghost}
 
 /-! ## `tickit_window_unref` on the whole state -/
 
-theorem release_all : ∀ (dead : List Nat) {st : St}, SInvB st dead →
-    ∃ st', dead.foldlM releaseWin st = .ok st' ∧ SInvB st' [] ∧ st'.tree = st.tree ∧
+theorem release_all : ∀ (dead : List Nat) {st : St}, SInvB gh st dead →
+    ∃ st', dead.foldlM releaseWin st = .ok st' ∧ SInvB gh st' [] ∧ st'.tree = st.tree ∧
       ∀ (j : Nat), (getX st' j).appRefs = (getX st j).appRefs
   | [], st, inv => ⟨st, rfl, inv, rfl, fun _ => rfl⟩
   | d :: rest, st, inv => by
@@ -537,9 +556,9 @@ theorem live_or_freed_root {t t' : Tree} (ev : TEv t t') (dead : List Nat) (hd :
     | true => exact .inr ((hd.2 0).2 ⟨⟨r, hl⟩, r', hr', hf⟩)
 
 /-- The tree part of `tickit_window_unref` of a live window: it never fails; what it leaves behind. -/
-theorem unrefT_ok {cfg : Cfg} (R : Repaired cfg) {st : St} (inv : SInvB st []) {x : Nat} {xw : Win}
+theorem unrefT_ok {cfg : Cfg} (R : Repaired cfg) {st : St} (inv : SInvB gh st []) {x : Nat} {xw : Win}
     (hl : LiveW st.tree x xw) :
-    ∃ t' dead dropped, unrefT cfg st.tree x = .ok (t', dead, dropped) ∧ SInvB { st with tree := t' } dead ∧
+    ∃ t' dead dropped, unrefT cfg st.tree x = .ok (t', dead, dropped) ∧ SInvB gh { st with tree := t' } dead ∧
       t'.wins.size = st.tree.wins.size ∧
       (∀ (i : Nat) (w : Win), st.tree.wins[i]? = some w → w.freed = true → ∃ w', t'.wins[i]? = some w' ∧ w'.freed = true) ∧
       dropped.Nodup ∧
@@ -760,19 +779,19 @@ theorem consume_appRefs : ∀ (dropped : List Nat) (st : St) (j : Nat), dropped.
 
 /-- `tickit_window_unref` by the application on a window it holds: never fails, keeps the invariant; the tree keeps
     its size, what was freed stays freed, and the application has one reference less. -/
-theorem unrefW_ok {cfg : Cfg} (R : Repaired cfg) {st : St} (inv : SInv st) {x : Nat} (hh : heldW st x = true) :
-    ∃ st', unrefW cfg (setX st x { getX st x with appRefs := (getX st x).appRefs - 1 }) x = .ok st' ∧ SInv st' ∧
+theorem unrefW_ok {cfg : Cfg} (R : Repaired cfg) {st : St} (inv : SInv gh st) {x : Nat} (hh : heldW st x = true) :
+    ∃ st', unrefW cfg (setX st x { getX st x with appRefs := (getX st x).appRefs - 1 }) x = .ok st' ∧ SInv gh st' ∧
       st'.tree.wins.size = st.tree.wins.size ∧
       (∀ (i : Nat) (w : Win), st.tree.wins[i]? = some w → w.freed = true →
         ∃ w', st'.tree.wins[i]? = some w' ∧ w'.freed = true) ∧
-      (getX st' x).appRefs + 1 ≤ (getX st x).appRefs := by
+      (getX st' x).appRefs + 1 ≤ (getX st x).appRefs ∧ (∀ (j : Nat), (getX st' j).appRefs ≤ (getX st j).appRefs) := by
   obtain ⟨xw, hl, hpos⟩ := heldW_spec hh
   have hxlt : x < st.wx.size := by rw [inv.wx_size]; exact hl.lt
-  have inv0 : SInvB (setX st x { getX st x with appRefs := (getX st x).appRefs - 1 }) [] :=
+  have inv0 : SInvB gh (setX st x { getX st x with appRefs := (getX st x).appRefs - 1 }) [] :=
     inv.toSInvB.of_wx rfl rfl rfl rfl rfl (setX_map_pen _ rfl)
   obtain ⟨t', dead, dropped, ht, invG, hsz, hfr, hnd, hcnt⟩ := unrefT_ok R inv0 (x := x) (xw := xw) hl
   have hf := consume_frame dropped { (setX st x { getX st x with appRefs := (getX st x).appRefs - 1 }) with tree := t' }
-  have invC : SInvB (consume { (setX st x { getX st x with appRefs := (getX st x).appRefs - 1 }) with tree := t' } dropped) dead :=
+  have invC : SInvB gh (consume { (setX st x { getX st x with appRefs := (getX st x).appRefs - 1 }) with tree := t' } dropped) dead :=
     invG.of_wx hf.1 hf.2.1 hf.2.2.1 hf.2.2.2.1 hf.2.2.2.2.1 (consume_map_pen dropped _)
   obtain ⟨st2, hfold, inv2, ht2, ha2⟩ := release_all dead invC
   have htree : st2.tree = t' := by rw [ht2, hf.1]
@@ -811,8 +830,11 @@ theorem unrefW_ok {cfg : Cfg} (R : Repaired cfg) {st : St} (inv : SInv st) {x : 
   · intro i w hw hfw
     rw [htree]
     exact hfr i w hw hfw
-  · have := (happ x).1
-    simp only [if_true] at this
-    omega
+  · refine ⟨?_, fun j => ?_⟩
+    · have := (happ x).1
+      simp only [if_true] at this
+      omega
+    · have := (happ j).1
+      omega
 
 end Tickit.Life
